@@ -1,6 +1,6 @@
 """C20 - the generated stand-alone solver agrees with the in-process solver.
 
-spec:   spec/Codegen.tla (actions ParseBlock, GenerateEquations, GenerateFile, Import, RunStep; invariants
+spec:   spec/Codegen.tla (actions ParseBlock, GenerateEquations, GenerateFile, Import, RunStep, Regenerate; invariants
         C20_Closed, C20_HeaderTimeFirst, C20_StepAppendsAll, C20_StepSatisfiesEquations, C20_RunsClean).
         Names only: which names each section of the written module binds / reads / indexes.
         AsFound_KUndefined = TRUE is the pinned generator (the shared parser injects 't = k', nothing in
@@ -19,6 +19,10 @@ replay: every block is rendered to text and given to the REAL IterativeMachineGe
         the series themselves.  The in-process EquationSolver solves the same text from the same k = 0
         values (ExtractVariableList / SetInitialConditions / k = 0 overwritten with the module's /
         SolveStep per period).
+        Regeneration: for every block in the thorough tier and a seeded third of the blocks in the quick
+        tier, main(<second file>) is called AGAIN on the same IterativeMachineGenerator object (the lists
+        it holds persist, e.g. the step-index series GenerateEquations appended to Exogenous); the second
+        module is imported, run and judged by the same clauses.
         Numeric predicates, exact rationals (fractions.Fraction):
           resid_ok(k)  every equation of the block holds on the module's own values of period k, lags
                        from its own period k-1, exogenous from the supplied path (and the module's
@@ -36,13 +40,15 @@ Property clauses (the only sources of a VIOLATION), per the statement of C20:
   C20_StepAppendsAll          every endogenous variable has a value for every period 1..MaxTime
   C20_StepSatisfiesEquations  resid_ok for every k >= 1
   C20_AgreesWithInProcess     agree_ok for every k >= 1
-  C20_HeaderTimeFirst         CreateCsvString(): 't' first, every non-lagged variable of the block once
+  C20_HeaderTimeFirst         CreateCsvString(): 't' first, every non-lagged variable of the block once,
+                              no column twice
 Readings (the weaker one where the statement leaves a choice):
   * blocks are well-posed: exogenous lists have at least MaxTime+1 values, lags refer to endogenous
     variables, the system contracts (factor <= 0.5) - divergence and too-short lists are C02/C10/C11;
   * "the stated tolerance": the bound B above (the generated module stops on the ABSOLUTE error sum, the
     in-process solver on a relative one; both are far inside B);
-  * extra columns in the table (e.g. a step-index series) are allowed; lagged variables are not required;
+  * extra columns in the table (e.g. a step-index series) are allowed but, like every column, at most
+    once; lagged variables are not required; the clauses hold for every module a generator object writes;
   * everything about the spelling / order of the generated sections is conformance (DRIFT), not property.
 """
 import ast
@@ -51,6 +57,7 @@ import json
 import math
 import multiprocessing
 import os
+import random
 import re
 from fractions import Fraction as F
 
@@ -61,6 +68,7 @@ MATH_NAMES = ['sqrt', 'exp', 'log', 'floor', 'pi']          # = MathNames of MC_
 RESERVED_ATTRS = ('MaxIterations', 'MaxTime', 'STEP', 'PrintIterations', 'Err_Tolerance', 'VariableList')
 NAME_FIELDS = ('endo', 'lagged', 'exos', 'ics', 'maxTime', 'foundT')
 GRAMMAR_FIELDS = ('n', 'A', 'lag', 'ic', 'exo', 'cst', 'userT', 'useT', 'tol', 'maxTime')
+REGEN_FRACTION_QUICK = 1.0 / 3.0
 
 
 # --------------------------------------------------------------------------------------
@@ -436,65 +444,37 @@ def solve_in_process(text, k0, horizon):
         return None, _exc(e)
 
 
-def execute(block, scratch, uid):
-    """Run one block through the real generator, the written module and the in-process solver.
-    Returns (events, record); record holds what signatures and reports need (texts, exceptions, series)."""
-    from sfc_models.deprecated.iterative_machine_generator import IterativeMachineGenerator
-    check_grammar_binding(block)
-    text = render(block)
-    rec = {'text': text, 'stage': '', 'exc': '', 'unbound': [], 'series': {}, 'inproc_exc': '', 'flags': {}}
-    events = []
+def _one_generation(block, gen, text, path, uid, cache):
+    """gen.main(path), then the written module: sections, import, construction, run, table.
+    -> (events, info); info['complete'] is True when the module ran to MaxTime without an exception."""
     math_ns = {k: getattr(math, k) for k in dir(math) if not k.startswith('_')}
-
-    # --- ParseBlock
-    ev = {'ev': 'ParseBlock', 'block': name_level(block)}
-    gen = None
-    try:
-        gen = IterativeMachineGenerator(text)
-        exos = []
-        for nm, value in gen.Exogenous:
-            try:
-                ln = len(eval(value, dict(math_ns)))
-            except Exception:
-                ln = -1
-            exos.append({'name': str(nm), 'len': ln})
-        ev.update(ok=True,
-                  endo=[{'name': str(nm), 'reads': names_in(eq)} for nm, eq in gen.Endogenous],
-                  lagged=[{'name': str(nm), 'of': str(of)} for nm, of in gen.Lagged],
-                  exos=exos, ics=sorted(str(x) for x in gen.InitialConditions), maxTime=int(gen.MaxTime))
-    except Exception as e:
-        rec.update(stage='parse', exc=_exc(e))
-        ev.update(ok=False, endo=[], lagged=[], exos=[], ics=[], maxTime=0)
-    events.append(ev)
-    if gen is None:
-        return events, rec
-
+    info = {'stage': '', 'exc': '', 'unbound': [], 'series': {}, 'inproc_exc': '', 'flags': {}, 'complete': False,
+            'header': None, 'csv_exc': ''}
+    events = []
     # --- GenerateEquations / GenerateFile (one call of main())
-    path = os.path.join(scratch, 'c20gen_%s.py' % uid)
     gen_ok = True
     try:
         gen.main(path)
     except Exception as e:
         gen_ok = False
-        rec.update(stage='generate', exc=_exc(e))
-    if gen_ok:
-        events.append({'ev': 'GenerateEquations', 'ok': True,
-                       'exos': [str(nm) for nm, dummy in gen.Exogenous],
-                       'all': [str(x) for x in gen.AllVariables],
-                       'nonLagged': [str(x) for x in gen.NonLagged],
-                       'eqReads': [names_in(eq) for eq in gen.EquationList]})
-        sec, parsed = sections_of(path)
-        gf = {'ev': 'GenerateFile', 'ok': True}
-        gf.update(sec)
-        events.append(gf)
-        rec['unbound'] = sorted({nm for reads in sec['iterReads'] for nm in reads
-                                 if nm not in sec['iterUnpack'] and nm not in math_ns})
-    else:
+        info.update(stage='generate', exc=_exc(e))
+    if not gen_ok:
         events.append({'ev': 'GenerateEquations', 'ok': False, 'exos': [], 'all': [], 'nonLagged': [], 'eqReads': []})
         gf = {'ev': 'GenerateFile', 'ok': False}
         gf.update({k: list(v) for k, v in EMPTY_SECTIONS.items()})
         events.append(gf)
-        return events, rec
+        return events, info
+    events.append({'ev': 'GenerateEquations', 'ok': True,
+                   'exos': [str(nm) for nm, dummy in gen.Exogenous],
+                   'all': [str(x) for x in gen.AllVariables],
+                   'nonLagged': [str(x) for x in gen.NonLagged],
+                   'eqReads': [names_in(eq) for eq in gen.EquationList]})
+    sec, parsed = sections_of(path)
+    gf = {'ev': 'GenerateFile', 'ok': True}
+    gf.update(sec)
+    events.append(gf)
+    info['unbound'] = sorted({nm for reads in sec['iterReads'] for nm in reads
+                              if nm not in sec['iterUnpack'] and nm not in math_ns})
 
     # --- Import: exec the file under a unique module name, construct SFCModel
     obj = None
@@ -505,16 +485,16 @@ def execute(block, scratch, uid):
         spec.loader.exec_module(module)
         obj = module.SFCModel()
         varlist = [str(x) for x in obj.VariableList]
-        series_names = sec['decl'] if sec['decl'] else varlist
+        series_names = sec['decl'] if sec['decl'] else sorted(set(varlist), key=varlist.index)
         ev.update(ok=True, exc='', lens=_lens(obj, series_names), varList=varlist,
                   k0_ok=initial_values_ok(block, obj))
     except Exception as e:
         obj = None
-        rec.update(stage='import', exc=_exc(e))
+        info.update(stage='import', exc=_exc(e))
         ev.update(ok=False, exc=_exc(e), lens=[], varList=[], k0_ok=False)
     events.append(ev)
     if obj is None:
-        return events, rec
+        return events, info
     k0 = {}
     for nm in series_names:
         try:
@@ -545,25 +525,29 @@ def execute(block, scratch, uid):
         if not steps or steps[-1]['ok']:
             steps.append({'ok': False, 'exc': _exc(e), 'step': int(getattr(obj, 'STEP', -1)),
                           'lens': _lens(obj, series_names)})
-        rec.update(stage='run', exc=steps[-1]['exc'])
+        info.update(stage='run', exc=steps[-1]['exc'])
     steps_ok = 0
     for s in steps:
         if not s['ok']:
             break
         steps_ok += 1
+    info['complete'] = (steps_ok == len(steps) == horizon)
     mod_series = {}
     for nm in series_names:
         try:
             mod_series[nm] = [float(v) for v in getattr(obj, nm)]
         except Exception:
             pass
-    rec['series'] = mod_series
-    in_series, in_exc = solve_in_process(text, k0, horizon)
-    rec['inproc_exc'] = in_exc
+    info['series'] = mod_series
+    key = core.canonical(k0)
+    if key not in cache:                       # the in-process solve only depends on the text and the k = 0 values
+        cache[key] = solve_in_process(text, k0, horizon)
+    in_series, in_exc = cache[key]
+    info['inproc_exc'] = in_exc
     if in_series is not None:
-        rec['inproc_series'] = {nm: in_series[nm] for nm in in_series if nm in mod_series}
+        info['inproc_series'] = {nm: in_series[nm] for nm in in_series if nm in mod_series}
     flags = numeric_flags(block, mod_series, in_series, min(steps_ok, horizon))
-    rec['flags'] = {str(k): v for k, v in flags.items()}
+    info['flags'] = {str(k): v for k, v in flags.items()}
     for i, s in enumerate(steps):
         k = i + 1
         fl = flags.get(k) if s['ok'] else None
@@ -578,23 +562,70 @@ def execute(block, scratch, uid):
         out = obj.CreateCsvString()
         lines = out.split('\n')
         ev.update(ok=True, header=lines[0].split('\t'), rows=len([x for x in lines[1:] if x != '']))
+        info['header'] = ev['header']
     except Exception as e:
-        rec['csv_exc'] = _exc(e)
+        info['csv_exc'] = _exc(e)
         ev.update(ok=False, header=[], rows=0)
     events.append(ev)
+    return events, info
+
+
+def execute(block, scratch, uid, regenerate=False):
+    """Run one block through the real generator, the written module(s) and the in-process solver.
+    regenerate: call main(<second file>) again on the SAME generator object after the first module ran to
+    MaxTime, and import / run / judge that module as well.
+    Returns (events, record); record['gens'] holds per written module what signatures and reports need."""
+    from sfc_models.deprecated.iterative_machine_generator import IterativeMachineGenerator
+    check_grammar_binding(block)
+    text = render(block)
+    rec = {'text': text, 'parse_exc': '', 'gens': []}
+    events = []
+    math_ns = {k: getattr(math, k) for k in dir(math) if not k.startswith('_')}
+
+    # --- ParseBlock
+    ev = {'ev': 'ParseBlock', 'block': name_level(block)}
+    gen = None
+    try:
+        gen = IterativeMachineGenerator(text)
+        exos = []
+        for nm, value in gen.Exogenous:
+            try:
+                ln = len(eval(value, dict(math_ns)))
+            except Exception:
+                ln = -1
+            exos.append({'name': str(nm), 'len': ln})
+        ev.update(ok=True,
+                  endo=[{'name': str(nm), 'reads': names_in(eq)} for nm, eq in gen.Endogenous],
+                  lagged=[{'name': str(nm), 'of': str(of)} for nm, of in gen.Lagged],
+                  exos=exos, ics=sorted(str(x) for x in gen.InitialConditions), maxTime=int(gen.MaxTime))
+    except Exception as e:
+        rec['parse_exc'] = _exc(e)
+        ev.update(ok=False, endo=[], lagged=[], exos=[], ics=[], maxTime=0)
+    events.append(ev)
+    if gen is None:
+        return events, rec
+    cache = {}
+    evs, info = _one_generation(block, gen, text, os.path.join(scratch, 'c20gen_%s.py' % uid), uid, cache)
+    events.extend(evs)
+    rec['gens'].append(info)
+    if regenerate and info['complete']:
+        events.append({'ev': 'Regenerate'})
+        evs, info = _one_generation(block, gen, text, os.path.join(scratch, 'c20gen_%s_b.py' % uid), uid + '_b', cache)
+        events.extend(evs)
+        rec['gens'].append(info)
     return events, rec
 
 
 def _worker(arg):
-    idx, block, scratch = arg
-    return idx, execute(block, scratch, '%d_%d' % (os.getpid(), idx))
+    idx, block, scratch, regen = arg
+    return idx, execute(block, scratch, '%d_%d' % (os.getpid(), idx), regen)
 
 
-def execute_all(blocks, scratch):
+def execute_all(blocks, scratch, regen):
     """-> [(events, record)] in the order of blocks; worker processes when there are many blocks."""
-    items = [(i, b, scratch) for i, b in enumerate(blocks)]
+    items = [(i, b, scratch, bool(regen[i])) for i, b in enumerate(blocks)]
     if len(items) < 64:
-        return [execute(b, scratch, '%d_%d' % (os.getpid(), i)) for i, b, _ in items]
+        return [execute(b, scratch, '%d_%d' % (os.getpid(), i), r) for i, b, _, r in items]
     out = [None] * len(items)
     ctx = multiprocessing.get_context('fork')
     procs = max(2, min(12, (os.cpu_count() or 4) - 2))
@@ -610,38 +641,57 @@ def execute_all(blocks, scratch):
 # verdicts
 # --------------------------------------------------------------------------------------
 
-def signature(clause, block, events, rec):
+def _signature_of_generation(clause, block, want, endo, info):
+    """What is wrong for this clause with the module of one generation (None: nothing)."""
     if clause == 'C20_ImportAndRun':
-        m = re.match(r"NameError: name '(\w+)' is not defined", rec.get('exc', ''))
-        if m and rec.get('stage') == 'run' and m.group(1) in rec.get('unbound', []):
+        if not info['exc']:
+            return None
+        m = re.match(r"NameError: name '(\w+)' is not defined", info['exc'])
+        if m and info['stage'] == 'run' and m.group(1) in info['unbound']:
             return 'generated-module-never-binds-' + m.group(1)
-        return 'raises:%s:%s' % (rec.get('stage', '?'), rec.get('exc', '?').split(':')[0])
+        return 'raises:%s:%s' % (info['stage'], info['exc'].split(':')[0])
     if clause == 'C20_StepAppendsAll':
-        horizon = block['maxTime']
-        endo = [e['name'] for e in events[0].get('endo', [])]
-        short = sorted(nm for nm in endo if len(rec.get('series', {}).get(nm, [])) != horizon + 1)
-        return 'series-without-a-value-per-period:' + ','.join(short)
+        short = sorted(nm for nm in endo if len(info['series'].get(nm, [])) != block['maxTime'] + 1)
+        return ('series-without-a-value-per-period:' + ','.join(short)) if short else None
     if clause == 'C20_StepSatisfiesEquations':
-        for k in sorted(rec.get('flags', {}), key=int):
-            if not rec['flags'][k]['resid_ok']:
-                return 'equations-not-satisfied:' + ','.join(sorted(set(rec['flags'][k]['bad_resid'])))
-        return 'equations-not-satisfied'
+        for k in sorted(info['flags'], key=int):
+            if not info['flags'][k]['resid_ok']:
+                return 'equations-not-satisfied:' + ','.join(sorted(set(info['flags'][k]['bad_resid'])))
+        return None
     if clause == 'C20_AgreesWithInProcess':
-        for k in sorted(rec.get('flags', {}), key=int):
-            if not rec['flags'][k]['agree_ok']:
-                return 'differs-from-in-process-solver:' + ','.join(sorted(set(rec['flags'][k]['bad_agree'])))
-        return 'differs-from-in-process-solver'
+        for k in sorted(info['flags'], key=int):
+            if not info['flags'][k]['agree_ok']:
+                return 'differs-from-in-process-solver:' + ','.join(sorted(set(info['flags'][k]['bad_agree'])))
+        return None
     if clause == 'C20_HeaderTimeFirst':
-        csv = [e for e in events if e['ev'] == 'Csv']
-        if not csv or not csv[0]['ok']:
-            return 'table-raises:' + rec.get('csv_exc', '?').split(':')[0]
-        h = csv[0]['header']
-        want = [e['name'] for e in events[0].get('endo', [])] + [e['name'] for e in events[0].get('exos', [])]
+        if info['csv_exc']:
+            return 'table-raises:' + info['csv_exc'].split(':')[0]
+        h = info['header']
+        if h is None:
+            return None
         if 't' in want and (not h or h[0] != 't'):
             return 'header-time-not-first'
         miss = sorted(nm for nm in want if h.count(nm) == 0)
-        dup = sorted(nm for nm in want if h.count(nm) > 1)
-        return 'header-missing:%s-duplicated:%s' % (','.join(miss), ','.join(dup))
+        dup = sorted({nm for nm in h if h.count(nm) > 1})
+        if miss:
+            return 'header-missing:' + ','.join(miss)
+        if dup:
+            return 'header-lists-twice:' + ','.join(dup)
+        return None
+    return None
+
+
+def signature(clause, block, events, rec):
+    """Names what fails and, when only a later module of the same generator object fails, that it is
+    the regenerated one."""
+    if rec.get('parse_exc'):
+        return 'raises:parse:' + rec['parse_exc'].split(':')[0]
+    endo = [e['name'] for e in events[0].get('endo', [])]
+    want = endo + [e['name'] for e in events[0].get('exos', [])]
+    for gi, info in enumerate(rec.get('gens', [])):
+        sig = _signature_of_generation(clause, block, want, endo, info)
+        if sig is not None:
+            return sig + ('@regenerated-module' if gi > 0 else '')
     return clause
 
 
@@ -649,36 +699,41 @@ def nontrivial(block):
     return block['n'] >= 2 or block['lag'] > 0 or block['exo'] > 0
 
 
-def case_of(block, events=None, rec=None):
+def case_of(block, events=None, rec=None, regenerate=None):
     c = {'block': block, 'text': render(block)}
+    if regenerate is not None:
+        c['regenerate'] = bool(regenerate)
     if events is not None:
         c['observed'] = events
     if rec is not None:
-        c['exception'] = rec.get('exc', '')
-        c['module_series'] = rec.get('series', {})
-        c['flags'] = rec.get('flags', {})
+        c['exceptions'] = [g['exc'] for g in rec.get('gens', [])]
+        c['module_series'] = [g['series'] for g in rec.get('gens', [])]
+        c['flags'] = [g['flags'] for g in rec.get('gens', [])]
     return c
 
 
-def judge(rep, blocks):
+def judge(rep, blocks, regen):
+    """regen[i]: whether block i is also carried through a second main() on the same generator object."""
     scratch = core.workdir('c20')
     try:
-        results = execute_all(blocks, scratch)
+        results = execute_all(blocks, scratch, regen)
     finally:
         core.cleanup(scratch)
     traces = [(i, results[i][0]) for i in range(len(blocks))]
     for i, b in enumerate(blocks):
-        rep.add_case(case_of(b, results[i][0]) if i < 3 else {k: b[k] for k in GRAMMAR_FIELDS}, nontrivial(b))
+        small = dict({k: b[k] for k in GRAMMAR_FIELDS}, regenerate=bool(regen[i]))
+        rep.add_case(case_of(b, results[i][0], regenerate=regen[i]) if i < 3 else small, nontrivial(b))
     verdicts, st, tr = core.validate_traces('MC_Codegen_Trace', 'MC_Codegen_Trace.cfg', traces, tag='c20')
     rep.traces += len(traces)
-    rep.extra['trace_validation_states'] = rep.extra.get('trace_validation_states', 0) + st
-    rep.extra['modules_generated'] = rep.extra.get('modules_generated', 0) + \
-        sum(1 for ev, _ in results if len(ev) > 2 and ev[2]['ok'])
-    rep.extra['modules_run_to_maxtime'] = rep.extra.get('modules_run_to_maxtime', 0) + \
-        sum(1 for (ev, _), b in zip(results, blocks)
-            if sum(1 for e in ev if e['ev'] == 'RunStep' and e['ok']) == b['maxTime'])
-    rep.extra['in_process_solves'] = rep.extra.get('in_process_solves', 0) + \
-        sum(1 for ev, r in results if 'inproc_series' in r)
+
+    def bump(key, n):
+        rep.extra[key] = rep.extra.get(key, 0) + n
+
+    bump('trace_validation_states', st)
+    bump('modules_generated', sum(sum(1 for e in ev if e['ev'] == 'GenerateFile' and e['ok']) for ev, _ in results))
+    bump('modules_run_to_maxtime', sum(sum(1 for g in r['gens'] if g['complete']) for _, r in results))
+    bump('modules_written_by_a_second_main_call', sum(1 for _, r in results if len(r['gens']) > 1))
+    bump('in_process_comparisons', sum(sum(1 for g in r['gens'] if 'inproc_series' in g) for _, r in results))
     by_sig = rep.extra.setdefault('violating_blocks_by_signature', {})
     for i, b in enumerate(blocks):
         v = verdicts[i]
@@ -689,11 +744,12 @@ def judge(rep, blocks):
         if kind == 'property':
             sig = signature(clause, b, events, rec)
             by_sig[sig] = by_sig.get(sig, 0) + 1
-            rep.violate(clause, sig, case_of(b, events, rec),
-                        detail='%s | block:\n%s' % (rec.get('exc', '') or json.dumps(rec.get('flags', {}))[:200],
-                                                    render(b)))
+            what = '; '.join(g['exc'] for g in rec['gens'] if g['exc']) or \
+                '; '.join('header %r' % (g['header'],) for g in rec['gens'] if g['header'] is not None)
+            rep.violate(clause, sig, case_of(b, events, rec, regenerate=regen[i]),
+                        detail='%s | block:\n%s' % (what[:300], render(b)))
         else:
-            rep.add_drift(clause, case_of(b, events))
+            rep.add_drift(clause, case_of(b, events, regenerate=regen[i]))
     return verdicts, results
 
 
@@ -705,7 +761,8 @@ def run(rep):
     rep.rule = ('blocks = every block of the bounded grammar instance of MC_Codegen emitted by TLC (matrix of '
                 'quarter coefficients with row sums <= 1/2 x lag x initial condition x exogenous list x '
                 'constant spelling x time axis x time trend x tolerance x MaxTime); each is generated, imported, '
-                'run and solved in process; distinct = distinct block JSON; non-trivial = at least two '
+                'run and solved in process, and (every block in thorough, a seeded third in quick) generated a '
+                'second time from the same generator object, imported and run again; distinct = distinct block JSON; non-trivial = at least two '
                 'simultaneous variables, or a lag, or an exogenous list')
     rep.exhaustive = True
     rep.assumptions = ['blocks are well-posed: contraction factor <= 0.5, exogenous lists >= MaxTime+1 values, '
@@ -723,7 +780,7 @@ def run(rep):
     seen = set()
     blocks = []
     for b in core.json_of_printed(res, 'BEH'):
-        if b.get('status') != 'ok' or b.get('steps') != b['block']['maxTime']:
+        if b.get('status') != 'ok' or b.get('steps') != b['block']['maxTime'] or b.get('generations') != 2:
             raise core.MachineryError('the model predicts a failing run for block %r' % (b,))
         k = core.canonical(b['block'])
         if k not in seen:
@@ -735,7 +792,11 @@ def run(rep):
     blocks.sort(key=lambda b: (b['n'], b['maxTime'], b['lag'], b['exo'], b['cst'], int(b['useT']), int(b['ic']),
                                b['tol'], core.canonical(b)))
     rep.extra['blocks_without_user_time'] = sum(1 for b in blocks if b['userT'] == 'none')
-    judge(rep, blocks)
+    # regeneration (main() twice on one generator object): every block in the thorough tier, a seeded third
+    # of the blocks in the quick tier
+    rng = random.Random(rep.seed)
+    regen = [True if rep.tier != 'quick' else rng.random() < REGEN_FRACTION_QUICK for dummy in blocks]
+    judge(rep, blocks, regen)
 
 
 def replay(path):
@@ -743,12 +804,14 @@ def replay(path):
         data = json.load(f)
     block = data['case']['block']
     rep = core.Report('C20', 'quick', 0)
-    verdicts, results = judge(rep, [block])
+    verdicts, results = judge(rep, [block], [True])          # a replay always regenerates as well
     events, rec = results[0]
     print(render(block))
-    print(json.dumps({'verdict': verdicts[0], 'exception': rec.get('exc', ''), 'unbound_names': rec.get('unbound', []),
-                      'module_series': rec.get('series', {}), 'in_process_series': rec.get('inproc_series', {}),
-                      'flags': rec.get('flags', {}), 'observed_now': events}, indent=1)[:6000])
+    print(json.dumps({'verdict': verdicts[0],
+                      'modules': [{'exception': g['exc'], 'unbound_names': g['unbound'], 'header': g['header'],
+                                   'module_series': g['series'], 'in_process_series': g.get('inproc_series', {}),
+                                   'flags': g['flags']} for g in rec['gens']],
+                      'observed_now': events}, indent=1)[:8000])
     for v in rep.violations:
         print('VIOLATION property=C20 replay=%s' % path)
         print('  clause=%s signature=%s' % (v.clause, v.signature))
